@@ -9,6 +9,72 @@ Context {E : Type} (deps : E -> list string) (W : list string) (colfn : E -> fra
 Notation gcu := (get_columns_used deps).
 Notation ext := (ext colfn).
 
+(* ext as a dict_update by the evaluated assignments *)
+Lemma ext_as_update (ops : pydict string E) (f : frame) :
+  ext ops f = dict_update f (map (fun ke => (fst ke, colfn (snd ke) f)) ops).
+Proof. unfold Extend.ext, dict_update. generalize f at 2 4 as acc.
+  induction ops as [|[k e] t IH]; intros acc; simpl; [reflexivity|]. apply IH. Qed.
+
+Lemma dict_get_ext (ops : pydict string E) (f : frame) c :
+  NoDup (dict_keys ops) ->
+  dict_get (ext ops f) c =
+  match dict_get ops c with Some e => Some (colfn e f) | None => dict_get f c end.
+Proof. intros N. rewrite ext_as_update, dict_get_update_nodup.
+  - rewrite (dict_get_map_val (fun e => colfn e f)). destruct (dict_get ops c); reflexivity.
+  - rewrite (dict_keys_map_val (fun e => colfn e f)). exact N. Qed.
+
+Lemma deps_in_gcu (ops : pydict string E) k e x :
+  dict_get ops k = Some e -> In x (deps e) -> In x (gcu ops).
+Proof. intros G I. unfold get_columns_used. apply In_py_set, in_flat_map.
+  exists e. split; [eapply In_dict_values; exact G|exact I]. Qed.
+
+(* what a successful merge guarantees *)
+Definition merge_spec (o1 o2 m : pydict string E) : Prop :=
+  (forall k, dict_get m k = match dict_get o2 k with Some v => Some v | None => dict_get o1 k end)
+  /\ (forall x, In x (gcu o2) -> ~ In x (dict_keys o1))
+  /\ NoDup (dict_keys m)
+  /\ (forall k, In k (dict_keys m) <-> In k (dict_keys o1) \/ In k (dict_keys o2)).
+
+Lemma merge_spec_holds (o1 o2 m : pydict string E) :
+  NoDup (dict_keys o1) -> NoDup (dict_keys o2) ->
+  try_to_merge_ops gcu o1 o2 = Some m -> merge_spec o1 o2 m.
+Proof.
+  intros N1 N2 H. unfold try_to_merge_ops in H. cbv zeta in H.
+  repeat match type of H with
+  | context[if ?b then _ else _] => destruct b eqn:?; [try discriminate H|]
+  end; try discriminate H.
+  - (* common keys *)
+    injection H as <-.
+    match goal with Hd : Nat.ltb 0 (List.length (set_inter (py_set (gcu o2)) (py_set (dict_keys o1)))) = false |- _ =>
+      pose proof (proj1 (inter_empty_disjoint _ _) Hd) as D end.
+    set (common := set_inter (py_set (dict_keys o1)) (py_set (dict_keys o2))).
+    set (keep := filter (fun k => negb (mem k common)) (dict_keys o1)).
+    assert (NoDup keep) as Nk by (apply NoDup_filter, N1).
+    assert (forall k, In k keep <-> In k (dict_keys o1) /\ ~ In k (dict_keys o2)) as Ik.
+    { intros k. unfold keep, common. rewrite filter_In, negb_true_iff, mem_false, In_set_inter, !In_py_set. tauto. }
+    split; [|split; [|split]].
+    + intros k. rewrite dict_get_update_nodup by exact N2.
+      destruct (dict_get o2 k) eqn:E2; [reflexivity|].
+      rewrite dict_get_of_list by (apply NoDup_keys_restrict_list, Nk).
+      rewrite dict_get_restrict_list.
+      destruct (mem k keep) eqn:M; [reflexivity|].
+      apply mem_false in M. rewrite Ik in M. apply dict_get_None in E2.
+      symmetry. apply dict_get_None. tauto.
+    + intros x I. specialize (D x). rewrite !In_py_set in D. auto.
+    + apply NoDup_dict_keys_update, NoDup_dict_keys_of_list.
+    + intros k. rewrite In_dict_keys_update, In_dict_keys_of_list, In_keys_restrict_list, Ik.
+      destruct (in_dec string_dec k (dict_keys o2)); tauto.
+  - (* no common keys *)
+    injection H as <-.
+    match goal with Hd : Nat.ltb 0 (List.length (set_inter (py_set (gcu o2)) (py_set (dict_keys o1)))) = false |- _ =>
+      pose proof (proj1 (inter_empty_disjoint _ _) Hd) as D end.
+    split; [|split; [|split]].
+    + intros k. apply dict_get_update_nodup, N2.
+    + intros x I. specialize (D x). rewrite !In_py_set in D. auto.
+    + apply NoDup_dict_keys_update, N1.
+    + intros k. apply In_dict_keys_update.
+Qed.
+
 Lemma merge_sound (o1 o2 m : pydict string E) (f : frame) :
   colfn_local deps W colfn ->
   NoDup (dict_keys o1) -> NoDup (dict_keys o2) ->
@@ -16,7 +82,18 @@ Lemma merge_sound (o1 o2 m : pydict string E) (f : frame) :
   try_to_merge_ops gcu o1 o2 = Some m ->
   forall c, dict_get (ext m f) c = dict_get (ext o2 (ext o1 f)) c.
 Proof.
-Abort.
+  intros L N1 N2 HW H c.
+  destruct (merge_spec_holds _ _ _ N1 N2 H) as (G & D & Nm & _).
+  rewrite (dict_get_ext m) by exact Nm. rewrite (dict_get_ext o2) by exact N2.
+  rewrite G. destruct (dict_get o2 c) as [e|] eqn:E2.
+  - f_equal. apply L. intros x I. rewrite (dict_get_ext o1) by exact N1.
+    assert (~ In x (dict_keys o1)) as NI.
+    { apply in_app_iff in I. destruct I as [I|I].
+      - apply D. eapply deps_in_gcu; eassumption.
+      - intros I1. exact (HW x I1 I). }
+    apply dict_get_None in NI. rewrite NI. reflexivity.
+  - rewrite (dict_get_ext o1) by exact N1. reflexivity.
+Qed.
 
 (* the merged step assigns exactly the columns the two steps assign *)
 Lemma merge_keys (o1 o2 m : pydict string E) :
@@ -24,5 +101,7 @@ Lemma merge_keys (o1 o2 m : pydict string E) :
   try_to_merge_ops gcu o1 o2 = Some m ->
   NoDup (dict_keys m) /\ forall k, In k (dict_keys m) <-> In k (dict_keys o1) \/ In k (dict_keys o2).
 Proof.
-Abort.
+  intros N1 N2 H. destruct (merge_spec_holds _ _ _ N1 N2 H) as (_ & _ & Nm & Km). split; assumption.
+Qed.
 End P.
+
